@@ -38,7 +38,12 @@ func main() {
 	replay := flag.String("replay", "", "violations file to replay: re-runs the property named in it and prints the constructs")
 	list := flag.Bool("list", false, "list properties and rules")
 	dump := flag.String("dump", "", "development aid: universe:pkgsuffix:Recv:func")
+	genBaseline := flag.String("gen-baseline", "", "development aid: write the baseline symbol table of the current tree to this file")
 	flag.Parse()
+	if *genBaseline != "" {
+		writeBaseline(newWorld(*repo, false), *genBaseline)
+		return
+	}
 	if *dump != "" {
 		dumpFn(newWorld(*repo, false), *dump)
 		return
